@@ -7,8 +7,9 @@ never receives the terminal and is not waited for; the signal mask
 signals blocked (otherwise Ctrl-Z cannot stop it)."""
 import oswrap
 oswrap.make(globals(), 'C07', ('pipe',), [
+    'every interactive spec is additionally run once through the real binary on a pseudo-terminal under strace -f (setpgid / TIOCSPGRP / rt_sigprocmask / fork / execve records) and judged by the same predicates; violations are replayed the same way',
     'claimed at call-sequence level only: the kernel\'s delivery of Ctrl-C/Ctrl-Z, real process states and the pty are outside; the fg/bg/jobs builtins and the main-loop polling are not encoded',
     'wait_fg_job is a stub returning any status (its behaviour is C06); tcsetpgrp may fail once (solver\'s choice)',
     'lines: 1..3 external stages (thorough 5), builtins in every position, background, not-found',
 ], ('process-group', 'terminal-not-given-to-job', 'terminal-not-returned', 'background-job-got-terminal', 'background-job-waited',
-    'foreground-not-waited', 'waited-wrong-pids', 'shell-signal-mask-not-restored', 'child-inherits-blocked-signals'), keep=lambda s: not s.get('capture'), extra_fds=(), tc_faults=True, faults=(False, True), native=False)
+    'foreground-not-waited', 'waited-wrong-pids', 'shell-signal-mask-not-restored', 'child-inherits-blocked-signals'), keep=lambda s: not s.get('capture'), extra_fds=(), tc_faults=True, faults=(False, True), native=False, tty_native=True)
